@@ -18,6 +18,10 @@ type Bounds struct {
 	PB  int   // preemption bound (iterated 0..PB)
 	Dev int   // environment-deviation bound (map order rotations)
 	Cap int64 // cap on executions per pass (0 = default)
+	// Delay: bound every deviation from the canonical schedule (running thread first, then
+	// ascending thread id), not only preemptions: a non-default choice at a point where the
+	// running thread blocked or exited also costs one (delay-bounded scheduling).
+	Delay bool
 }
 
 // Scenario is one closed client program of the library plus its oracles.
@@ -270,9 +274,9 @@ func firstLine(s string) string {
 }
 
 // Costs returns the number of preemptions and deviations in a recorded execution.
-func Costs(r *vsched.Result) (pre, dev int) {
+func Costs(r *vsched.Result, delay bool) (pre, dev int) {
 	for i := range r.Taken {
-		if r.Kind[i] == vsched.KSched && r.Pre[i] && r.Taken[i] != 0 {
+		if r.Kind[i] == vsched.KSched && (r.Pre[i] || delay) && r.Taken[i] != 0 {
 			pre++
 		}
 		if r.Kind[i] == vsched.KDev && r.Taken[i] != 0 {
